@@ -491,6 +491,12 @@ def check(run):
     distinct = 0
     groups = []
     allcex = []
+    # the list first: if the real AwaiterSet does not meet its contract the event-level runs may corrupt memory
+    info["awaiter_set"] = part_awset(run, wd, thorough)
+    if run.violations:
+        run.cov["c08"] = info
+        run.cov["rule"] = "stopped after AwaiterSet violated its contract (event-level parts not run)"
+        return
     for kind in ("auto", "manual"):
         info[kind], n, runs, stimuli, cexes = part_threads(run, wd, kind, thorough)
         distinct += n
@@ -505,7 +511,6 @@ def check(run):
         if not found:
             raise vlib.ToolError("explorer %s %s reports %s but the real code does not reproduce it (model drift)\n%s"
                                  % (kind, name, r.violation, r.cex[:3000]))
-    info["awaiter_set"] = part_awset(run, wd, thorough)
     info["weak_memory"] = part_wmm(run, wd, info, thorough)
     run.cov["c08"] = info
     run.cov["distinct_nontrivial"] = distinct + info["local"]["stimuli"] + info["awaiter_set"]["replayed"]
